@@ -429,8 +429,10 @@ class MeanAd(Adapter):
     self.new_state_is_accumulator = shape != 'scored'
     if data == 'inf':
       # input class "+inf / -inf among finite values, no NaN" (C01; C07 has the
-      # numpy-free oracle for the same class)
-      self.checks = ('C01',)
+      # numpy-free oracle for the same class); C11 iterates it since the fourth seed
+      # round (C11d): a state holding +inf and -inf has values AND a NaN mean, which
+      # only matters when it is the receiver of a merge
+      self.checks = ('C01', 'C11')
 
   def build(self):
     cls = getattr(_rs(), self.cls_name)
